@@ -14,6 +14,7 @@ OPNAME = {
 
 
 def zlit(v):
+    v = int(v)          # a Python bool is a legal value (True == 1)
     return str(v) if v >= 0 else '(%d)' % v
 
 
